@@ -291,7 +291,7 @@ func extractValueFromSpan(
 		}
 
 		if span.Data.Exists(field) {
-			return span.Data.Get(field), true, checkedOnlyRoot
+			return fieldValue(&span.Data, field), true, checkedOnlyRoot
 		}
 	}
 	if checkNestedFields {
